@@ -637,6 +637,12 @@ def run(ctx: Ctx) -> None:
     check_seeds(ctx)
     check_window(ctx)
     check_image(ctx)
+    # a DOE over a ParameterSpace: the physical samples are the image of the unit samples through the space's own
+    # untransform_vect, whose blocks must come back in the order of the variables (rule group 19.2 of C19)
+    from gv.props import c19
+    from gv.props.c12 import _Prefixed
+
+    c19.check_transform_pair(_Prefixed(ctx, "14.11-parameter-space/"))
     f = ctx.index.method(DOE, "BaseDOELibrary", "_pre_run")
     calls = rules.self_calls(f, "_init_iter_observer")
     ok = len(calls) == 1 and len(calls[0].args) >= 2 and norm_stmt(calls[0].args[1]) in ("len(self.unit_samples)", "len(self.samples)")
